@@ -160,7 +160,9 @@ def _idx_arg(S, name="idx"):
         t = "0" + S.hexs(name + ".h", 1)
         return t, ("hex", t)
     if form == "hexF":
-        t = "F" + S.hexs(name + ".h", 1)
+        h = S.hexs(name + ".h", 1)
+        S.vals[name + ".hcode"] = h.chars[0] if hasattr(h, "chars") else ord(h)
+        t = "F" + h
         return t, ("hex", t)
     return "HW", ("hex", "FA")
 
@@ -420,10 +422,11 @@ def known_regions(name, what, v):
     temp_args = {"put_weather_temp": "t", "put_outdoor_temp": "t", "put_dhw_temp": "t", "put_sensor_temp": "t", "set_zone_setpoint": "t", "set_zone_mode": "sp", "set_dhw_params": "sp"}
     if form is not None and what in ("decoder-accepts", "index-carried"):
         # after the _check_idx fix: 00..0F and F0..FF pass the constructor; the zone-only codes' regexes refuse the F-range
-        if form in ("hexF", "HW"):
-            R["domain id (Fx/HW) accepted for a zone-indexed code whose decoder refuses it"] = True
+        sched = name in ("get_schedule_fragment", "set_schedule_fragment")  # FA / 'HW' is the DHW schedule there: valid
+        if form == "hexF" or (form == "HW" and not sched):
+            R["domain id (Fx/HW) accepted for a zone-indexed code whose decoder refuses it"] = (v["idx.hcode"] != 65) if sched and "idx.hcode" in v else True
         elif form == "int" and "idx" in v:
-            R["domain id (Fx/HW) accepted for a zone-indexed code whose decoder refuses it"] = v["idx"] >= 0xF0
+            R["domain id (Fx/HW) accepted for a zone-indexed code whose decoder refuses it"] = _and(v["idx"] >= 0xF0, v["idx"] != 0xFA) if sched else v["idx"] >= 0xF0
     if name in temp_args and temp_args[name] in v:
         k = v[temp_args[name]]
         if what.endswith("-carried"):
